@@ -284,7 +284,10 @@ func dialRoute(
 		backendHost := netutil.HostStr(backendAddr)
 		if !strings.EqualFold(clearedHost, backendHost) {
 			// Modify the handshake packet to use the backend host as virtual host.
-			handshake.ServerAddress = strings.ReplaceAll(handshake.ServerAddress, clearedHost, backendHost)
+			// Replace the host name only (its first occurrence): an empty cleared host
+			// (address made of dots) must not have the backend host inserted between
+			// every character, and the Forge / TCPShield suffix stays untouched.
+			handshake.ServerAddress = strings.Replace(handshake.ServerAddress, clearedHost, backendHost, 1)
 			forceUpdatePacketContext = true
 		}
 	}
